@@ -348,6 +348,13 @@ def run_one(tape, tier, prop):
                 open(os.path.join(wr, fn), "wb").write(data)
             tot = len(Ulv)
             ev2 = [dict(e, at=min(e["at"], tot)) for e in events]
+            if sch.get("sync") and Uv and Uv[0]["pt"] == (("M", -1),) and t.chance(1, 2):
+                # the quit lands just as the restored level runs out: around the last next_guess() (the one that returns
+                # None), the loop test after it, the return, and the line of run() that follows restore_omen()
+                nrem = len(Uv[0]["lines"])
+                lab = t.choice(["omen_next_guess", "omen_loop_test", "return_num_guesses", "after_expand", "omen_next_guess"])
+                sch = dict(sch, sync=(lab, max(1, nrem + t.choice([-1, 0, 0, 1])) if lab.startswith("omen") else 1))
+                res.stats["directed_quit_at_end_of_restored_level"] += 1
             r = scheduled_cycle(flags, True, ev2, sch, cost, knobs={"optimizer_max_length": t.draw(7)})
             res.stats["scheduled_sessions"] += 1
             res.sim_seconds += r.ctx.clock.now
@@ -361,6 +368,26 @@ def run_one(tape, tier, prop):
             sigs.append(r.sim.signature())
             if any(e[1] == "switch" and e[-1] > 1 for e in r.sim.log) or any(k not in ("line:", "line:q", "line:h") for k in r.ctx.kbd_faults):
                 res.nontrivial = digest_of([spec["base"], spec["vars"], spec.get("omen_prob"), "resumed", r.sim.signature()])
+            if problem is None and len(r.lines) < len(Ulv) and r.ctx.should_exit_set_at is not None:
+                # a third sitting: what the real quit of the resumed process saved must resume to exactly the rest
+                real = [e for e in Uv if e["pt"] != (("M", -1),)]
+                oracle = resume.ResumeOracle(real, res)
+                if Uv and Uv[0]["pt"] == (("M", -1),):
+                    oracle.partial = (("restored", "level"), collections.Counter(Uv[0]["lines"]), list(Uv[0]["lines"]))
+                r.ctx.fired = True
+                r.ctx.fired_in = None
+                last = r.emitted[-1] if r.emitted else None
+                if last is not None and resume.is_m(last["pt"]):
+                    k = resume.key_of(last)
+                    if k in oracle.ulines and len(last["lines"]) < sum(oracle.ulines[k].values()):
+                        r.ctx.fired_in = "omen"
+                p1 = oracle.cycle(r, wr)
+                if p1 is None:
+                    r3 = resume.run_cycle(flags, load=True, trigger=None)
+                    p1 = oracle.cycle(r3, wr)
+                    res.stats["third_sitting_after_real_quit_of_resumed_process"] += 1
+                if p1 is not None and not (len(p1) > 2 and p1[2]):
+                    problem = ("saved_state_unusable:" + p1[0], dict(p1[1]))
             if problem is not None:
                 det = dict(problem[1])
                 det.update(events=repr(ev2), schedule=repr(sch), cost_per_guess=cost, resumed_session=True)
